@@ -1,6 +1,7 @@
 import IsalVerif.Driver.Hash
 import IsalVerif.Driver.Aes
 import IsalVerif.Driver.Rh
+import IsalVerif.Driver.Mh
 /-! `isal_model`: reads operation lines on stdin, prints one canonical result line per operation. -/
 open IsalVerif IsalVerif.Driver
 
@@ -45,12 +46,31 @@ partial def rhEpisode (h : IO.FS.Stream) (st : IsalVerif.Impl.Rolling.RhState) :
     IO.println out
     rhEpisode h st'
 
+open IsalVerif.Driver.MhD in
+/-- multi-hash episode (mh_sha1 / mh_sha256 / mh_sha1_murmur) -/
+partial def mhEpisode (h : IO.FS.Stream) (alg : String) (s : MhSt) : IO (Option String) := do
+  let line ← h.getLine
+  if line.isEmpty then return none
+  let toks := splitLine line
+  match toks with
+  | "E" :: _ => return some line
+  | [] => mhEpisode h alg s
+  | _ =>
+    let (s', out) := mhStep alg s toks
+    IO.println out
+    mhEpisode h alg s'
+
 partial def mainLoop (h : IO.FS.Stream) (pending : Option String) : IO Unit := do
   let line ← match pending with
     | some l => pure l
     | none => h.getLine
   if line.isEmpty then return ()
   match splitLine line with
+  | ["E", "mh_sha1", _] | ["E", "mh_sha256", _] | ["E", "mh_sha1_murmur", _] =>
+    IO.println "E"
+    let alg := (splitLine line).getD 1 ""
+    let nxt ← mhEpisode h alg IsalVerif.Driver.MhD.MhSt.idle
+    mainLoop h nxt
   | ["E", "rh", _impl] =>
     IO.println "E"
     let nxt ← rhEpisode h {}
